@@ -83,6 +83,8 @@ func NewHTTPS2HTTPPlugin(_ PluginContext, options v1.ClientPluginOptions) (Plugi
 				return
 			}
 		}
+		// see pkg/util/vhost/http.go: request body and response flow at the same time
+		_ = http.NewResponseController(w).EnableFullDuplex()
 		rp.ServeHTTP(w, r)
 	})
 
